@@ -771,6 +771,20 @@ func (c *cctx) evalCall(e *ast.CallExpr) cval {
 		}
 		c.fail("len of non-slice %s", exprString(arg(0)))
 		return c.mathVal(x.ar.mathC(big.NewInt(0)))
+	case "cap":
+		// cap(s): the capacity when the executor knows it (three-index slices),
+		// otherwise an unknown value >= len(s)
+		a := c.eval(arg(0))
+		if v, ok := a.v.(Sl); ok {
+			if v.Cap != nil {
+				return c.mathVal(c.idxToMath(v.Cap))
+			}
+			u := x.freshTerm("cap", x.ar.idxSort())
+			c.st.add(x.ar.le(v.Len, u, idxII))
+			return c.mathVal(c.idxToMath(u))
+		}
+		c.fail("cap of non-slice %s", exprString(arg(0)))
+		return c.mathVal(x.ar.mathC(big.NewInt(0)))
 	case "forall", "exists":
 		if len(e.Args) == 2 {
 			// forall(k, P): k ranges over every identity (map key ids, object ids)
